@@ -72,7 +72,8 @@ theorem routeCurly_eq_sel (E : ReEnv) (cfg : Config) (req : Req) :
 
 /-- a service of the model as CurlyRouter reads it -/
 def genSvcC (req : Req) (s : Service) : ImpGen.GoWebService :=
-  { pathExpr := some { LiteralCount := 0, VarNames := [], VarCount := 0, Matcher := fun _ => [], tokens := tokenize s.rootPath },
+  { rootPath := s.rootPath,
+    pathExpr := some { LiteralCount := 0, VarNames := [], VarCount := 0, Matcher := fun _ => [], tokens := tokenize s.rootPath },
     routes := s.built.map (genRoute req) }
 
 def genCandC (req : Req) (c : Curly.Cand) : ImpGen.GoCurlyRoute :=
@@ -232,7 +233,7 @@ theorem curly_select_route (rx : Str → Str → Bool × GoErr) (full : Str → 
       (detect_web_service rx full join (genSvcC req) (fun s => ⟨_, rfl, rfl⟩) _ _)
   refine T12.curly_glue _ _ cfg req htok hdw ?_
   intro svc
-  refine (select_routes rx full join srt (genRoute req) (fun r => ⟨rfl, rfl⟩) _ svc.built _).trans ?_
+  refine (select_routes rx full join srt (genRoute req) (fun r => ⟨rfl, rfl⟩) (genSvcC req svc) _ svc.built _).trans ?_
   cases Curly.candidates (envOf rx full) svc.built (tokenize req.path) with
   | none => rfl
   | some cs => exact congrArg some (hsrt cs)
@@ -261,7 +262,7 @@ theorem jsr_select_route (E : ReEnv) (X : ImpGen.Ext) (cfg : Config) (req : Req)
       = selView (genSvcJ E (routesOfJ E req)) (genRouteJ E (mkJ req)) (selJsr E cfg req) := by
   have hdd := jsr_detect_dispatcher E X (routesOfJ E req) hpD cfg.services req.path
   have hsr := fun (svc : Service) (final : Str) =>
-    jsr_select_routes E X (mkJ req) (fun _ _ => rfl) hpR (genPE E svc.rootPath) svc.built final
+    jsr_select_routes E X (mkJ req) (fun _ _ => rfl) hpR (genSvcJ E (routesOfJ E req) svc) (genPE E svc.rootPath) svc.built final
   have hpath : (genReq req).path = req.path := rfl
   unfold ImpGen.RouterJSR311_SelectRoute selJsr Jsr.detectDispatcher
   dsimp only
@@ -298,7 +299,7 @@ theorem jsr_select_route (E : ReEnv) (X : ImpGen.Ext) (cfg : Config) (req : Req)
         obtain ⟨svc, final, _, _, _⟩ := dc
         dsimp only
         have hsr' := hsr svc final
-        rw [show (some { pathExpr := genPE E svc.rootPath, routes := List.map (genRouteJ E (mkJ req)) svc.built }
+        rw [show (some { genSvcJ E (routesOfJ E req) svc with pathExpr := genPE E svc.rootPath, routes := List.map (genRouteJ E (mkJ req)) svc.built }
               : Option ImpGen.GoWebService) = some (genSvcJ E (routesOfJ E req) svc) from rfl] at hsr'
         rw [hsr', Jsr.selectRoutes]
         cases Jsr.routeCandidates E svc.built final with
